@@ -88,13 +88,13 @@ func setBridger(c claim, b string) {
 	elem(c).FieldByName("BridgerAddress").SetString(b)
 }
 
-// attTable: attestations of one event nonce on the real store: hash -> (voter indices, observed)
+// attTable: attestations of one event nonce on the real store, by STORE KEY: hash part of the key -> (voter indices, observed)
 func (e *keeperEnv) attTable(ctx sdk.Context, nonce uint64) string {
 	var rows []string
-	e.k.IterateAttestationAndClaim(ctx, func(att *ct.Attestation, c ct.ExternalClaim) bool {
-		if c.GetEventNonce() != nonce {
-			return false
-		}
+	prefix := ct.GetAttestationKey(nonce, nil)
+	for _, kv := range hx.RawPrefix(ctx, e.s.App.GetKey(keeperChain), prefix) {
+		var att ct.Attestation
+		e.s.App.AppCodec().MustUnmarshal(kv[1], &att)
 		var vs []string
 		for _, v := range att.Votes {
 			if i, ok := e.index[v]; ok {
@@ -103,9 +103,12 @@ func (e *keeperEnv) attTable(ctx sdk.Context, nonce uint64) string {
 				vs = append(vs, "?")
 			}
 		}
-		rows = append(rows, fmt.Sprintf("%s:%s:%s", hex.EncodeToString(c.ClaimHash())[:16], strings.Join(vs, "."), b01(att.Observed)))
-		return false
-	})
+		h := hex.EncodeToString(kv[0][len(prefix):])
+		if len(h) > 16 {
+			h = h[:16]
+		}
+		rows = append(rows, fmt.Sprintf("%s:%s:%s", h, strings.Join(vs, "."), b01(att.Observed)))
+	}
 	sort.Strings(rows)
 	if len(rows) == 0 {
 		return "-"
@@ -161,8 +164,52 @@ func (e *keeperEnv) stored(ctx sdk.Context, k *kind, executed claim) (string, bo
 	return "", false
 }
 
-// replay: voters submit `claims[i]` (nil = does not vote) in `order`; returns whether an observation happened
-func (e *keeperEnv) replay(k *kind, what string, claims []claim, order []int) {
+// shift: a change of oracle power between two votes
+type shift struct {
+	kind   string // "add": MsgAddDelegate of `amount` thousand FX; "slash": SlashOracle + SetLastTotalPower (as the end blocker does)
+	oracle int
+	amount int64
+}
+
+// applyShifts performs the power changes on the real keeper and tells the model the resulting powers (environment)
+func (e *keeperEnv) applyShifts(ctx sdk.Context, shifts []shift, replay *[]string) {
+	out := e.r.out
+	for _, sh := range shifts {
+		res := "ok"
+		switch sh.kind {
+		case "add":
+			cctx, commit := ctx.CacheContext()
+			res = hx.Try(func() error {
+				_, err := e.srv.AddDelegate(cctx, &ct.MsgAddDelegate{ChainName: keeperChain, OracleAddress: e.oracles[sh.oracle].String(),
+					Amount: ct.NewDelegateAmount(sdkmath.NewInt(sh.amount * 1e3).MulRaw(1e18))})
+				return err
+			})
+			if res == "ok" {
+				commit()
+			}
+		case "slash":
+			e.k.SlashOracle(ctx, e.oracles[sh.oracle].String())
+			e.k.SetLastTotalPower(ctx)
+		}
+		out.Count("keeper:shift:" + sh.kind + ":" + strings.SplitN(res, ":", 2)[0])
+		*replay = append(*replay, fmt.Sprintf("# power shift: %s oracle %d amount %d -> %s", sh.kind, sh.oracle, sh.amount, res))
+	}
+	for i := range e.oracles {
+		p := "none"
+		if o, found := e.k.GetOracle(ctx, e.oracles[i]); found {
+			p = o.GetPower().String()
+		}
+		line := fmt.Sprintf("pow %d %s", i, p)
+		*replay = append(*replay, line)
+		out.Emit(line, "ok")
+	}
+	line := "total " + e.k.GetLastTotalPower(ctx).String()
+	*replay = append(*replay, line)
+	out.Emit(line, "ok")
+}
+
+// replay: voters submit `claims[i]` (nil = does not vote) in `order`; `shifts[p]` are applied before the p-th vote of the order
+func (e *keeperEnv) replay(k *kind, what string, claims []claim, order []int, shifts map[int][]shift) {
 	r, out := e.r, e.r.out
 	ctx, _ := e.s.Ctx.CacheContext() // every replay starts from the same state and is discarded
 	var first claim
@@ -200,7 +247,10 @@ func (e *keeperEnv) replay(k *kind, what string, claims []claim, order []int) {
 	replay := []string{fmt.Sprintf("# real keeper (%s), %d oracles of power %v, last observed nonce %d; votes in order:", keeperChain, len(e.oracles), e.powers, nonce-1)}
 	votes := map[int]claim{}
 	observedBefore := map[string]bool{}
-	for _, i := range order {
+	for pos, i := range order {
+		if sh := shifts[pos]; len(sh) > 0 {
+			e.applyShifts(ctx, sh, &replay)
+		}
 		if claims[i] == nil {
 			continue
 		}
@@ -379,9 +429,39 @@ func keeperRun(t *testing.T, r *run, g *gen, ks map[string]*kind) {
 		for _, i := range deviators {
 			claims[i] = d
 		}
-		e.replay(k, what, claims, order)
+		e.replay(k, what, claims, order, nil)
+	}
+	// shifted: `early` oracles vote M (below the threshold), then power shifts so that their recorded votes alone would
+	// reach it — delegation added to them, the oracles that have not voted slashed — and only then a low-power oracle
+	// votes the conflicting D; the oracles that were slashed do not vote any more, the others vote M afterwards
+	shifted := func(k *kind, what string, m, d claim) {
+		order := orders(g, n)
+		early := 1 + g.rng.Intn(n-2)
+		claims := make([]claim, n)
+		var sh []shift
+		for pos, i := range order {
+			switch {
+			case pos < early:
+				claims[i] = m
+				if room := 100 - e.powers[i]; room > 0 {
+					sh = append(sh, shift{"add", i, room})
+				}
+			case pos == early:
+				claims[i] = d
+			default:
+				claims[i] = m
+				if g.rng.Intn(3) != 0 {
+					sh = append(sh, shift{"slash", i, 0})
+					claims[i] = nil
+				}
+			}
+		}
+		r.out.Count("keeper:scenario:power-shift")
+		e.replay(k, what+", after a power shift", claims, order, map[int][]shift{early: sh})
 	}
 	allPositions := func(k *kind, what string, m, d claim) {
+		shifted(k, what, m, d)
+		shifted(k, what, d, m)
 		// the single deviator at every position of the vote order, both ways round; then two deviators
 		for pos := 0; pos < n; pos++ {
 			order := orders(g, n)
@@ -492,7 +572,25 @@ func keeperRun(t *testing.T, r *run, g *gen, ks map[string]*kind) {
 				// an oracle tries to vote a second time (rejected: its nonce is no longer contiguous)
 				order = append(order[:2:2], append([]int{order[0]}, order[2:]...)...)
 			}
-			disagree(k, what, base, d, dev, order)
+			switch g.rng.Intn(4) {
+			case 0:
+				shifted(k, what, base, d)
+			case 1:
+				// a random power change at a random point of the vote
+				claims := make([]claim, n)
+				for i := range claims {
+					claims[i] = base
+				}
+				for _, i := range dev {
+					claims[i] = d
+				}
+				o := g.rng.Intn(n)
+				sh := shift{"add", o, 1 + int64(g.rng.Intn(int(100-e.powers[o])+1))}
+				r.out.Count("keeper:scenario:random-shift")
+				e.replay(k, what+", with a power change between votes", claims, order, map[int][]shift{1 + g.rng.Intn(n-1): {sh}})
+			default:
+				disagree(k, what, base, d, dev, order)
+			}
 		}
 	}
 }
